@@ -113,10 +113,17 @@ func cmdCheck(args []string) {
 		os.Exit(2)
 	}
 	work, _ := os.MkdirTemp("", "govc-"+id+"-")
-	defer os.RemoveAll(work)
-	timeout := 20
+	if os.Getenv("GOVC_KEEP") == "" {
+		defer os.RemoveAll(work)
+	} else {
+		fmt.Fprintln(os.Stderr, "govc: keeping", work)
+	}
+	timeout := 30
 	if *thorough {
 		timeout = 90
+	}
+	if v, err := strconv.Atoi(os.Getenv("GOVC_TIMEOUT")); err == nil && v > 0 {
+		timeout = v // debugging aid (forcing undecided obligations); never set by the registered commands
 	}
 	opts := solveOpts{timeoutS: timeout, workDir: work, all: *thorough, par: 8}
 
@@ -356,6 +363,9 @@ func cmdCheck(args []string) {
 		path := filepath.Join(replayDir, sanitizeFile(o.Name)+".json")
 		suffix := ""
 		rp := buildReplay(w, id, o, *repo)
+		if os.Getenv("GOVC_DEBUG_REPLAY") != "" {
+			fmt.Fprintf(os.Stderr, "replay %s: confirmed=%v inputs=%v notes=%v\n", o.Name, rp.Confirmed, rp.Inputs, rp.Notes)
+		}
 		if !rp.Confirmed {
 			suffix = " no-failing-input-found"
 		}
